@@ -33,16 +33,25 @@ def check_asm(c):
     bc = sorted(c["bc"])
     rng = np.random.default_rng(n)
     Cm = sps.csc_matrix(rng.integers(-2, 3, (n, n)) * (rng.random((n, n)) < 0.15)).astype(float)
-    for mt in (sps.csc_matrix, sps.csr_matrix):
+    # how the constrained dofs are given: sorted array with explicit diagonal value, reversed python list, default diagonal value
+    bcforms = [("array", lambda: np.array(bc), float(c["dv"])), ("list-reversed", lambda: list(reversed(bc)), float(c["dv"])),
+               ("default-diagonal", lambda: np.array(bc), None)] if bc else [("none", None, None)]
+    for mt, (bcname, bcval, dv) in [(a, b) for a in (sps.csc_matrix, sps.csr_matrix) for b in bcforms]:
         for const in (None, Cm):
             kw = dict(matrix_type=mt)
             if bc:
-                kw.update(bc=np.array(bc), bcdiagval=float(c["dv"]))
+                kw.update(bc=bcval())
+                if dv is not None:
+                    kw.update(bcdiagval=dv)
             if const is not None:
                 kw["add_constant"] = const
             s = pym.Signal("x", np.zeros(dom.nel))
             m = pym.AssembleGeneral(s, domain=dom, element_matrix=Ke, **kw)
             add = const.toarray() if const is not None else 0.0
+            if bc and dv is None:      # documented default: the largest entry of the element matrix on the constrained diagonal
+                dfix = np.zeros((n, n))
+                dfix[bc, bc] = float(np.max(Ke)) - float(c["dv"])
+                add = add + dfix
             exp0 = A0 if bc else A0  # without bc the specification's A0 is the zero matrix
 
             def get():
@@ -52,7 +61,7 @@ def check_asm(c):
                 return A.toarray()
             A = get()
             if A is None or not np.array_equal(A, exp0 + add):
-                return "zero-scaling", "grid %s ndof %d bc %s %s: A(x=0) differs from the specification" % (c["g"], c["ndof"], bc, mt.__name__)
+                return "zero-scaling", "grid %s ndof %d bc %s (%s) %s: A(x=0) differs from the specification" % (c["g"], c["ndof"], bc, bcname, mt.__name__)
             for e in range(dom.nel):
                 x = np.zeros(dom.nel)
                 x[e] = 1.0
